@@ -3,6 +3,9 @@
 // KIND concrete per job.  One symbolic pass through the emitted text is executed: forward jumps skip, a backward
 // jump (loop back-edge) must find the machine balanced as at its label and ends the pass.
 #include "cg_harness.h"
+#ifndef ETY
+#define ETY TI_INT
+#endif
 #ifndef CTY
 #define CTY TI_INT
 #endif
@@ -15,7 +18,7 @@ void harness(void) {
   Obj fn = {0};
   IN(uint64_t, vc); const _Bool has_opt = HAS_OPT;   /* optional parts present (init/inc, else, second statement, return value): concrete per job */
   Type *ct = &CGT[CTY];
-  cg_node(&c, ND_NULL_EXPR, ct); cg_node(&s1, ND_NULL_EXPR, 0); cg_node(&s2, ND_NULL_EXPR, 0); cg_node(&e3, ND_NULL_EXPR, &CGT[TI_INT]);
+  cg_node(&c, ND_NULL_EXPR, ct); cg_node(&s1, ND_NULL_EXPR, 0); cg_node(&s2, ND_NULL_EXPR, 0); cg_node(&e3, ND_NULL_EXPR, &CGT[ETY]);    /* the third clause of a for statement: its value is discarded, whatever its type */
   s1.kind = ND_BLOCK; s2.kind = ND_BLOCK;      /* abstract statements */
   cg_node(&n, KIND, 0);
   ASSUME(CTY >= TI_FLOAT || spec_canon(cg_st(ct), (int64_t)vc));
